@@ -7,7 +7,7 @@ from ..lib import reset, gv, D, electrical_signal
 from ..runner import Part
 
 RULE = ("two-level NRZ waveforms (random / PRBS7 / PRBS9 patterns, 64..512 slots, sps in {8,16,32}, sps_resamp=128) with level distance d over 1e-3..1e2 V, "
-        "offsets a/d in {0, U(-1,1), U(-10,10)}, Bessel band-limiting at 0.75..1.5 R, white Gaussian noise sigma in 0.5%..5% of d, and a metamorphic twin "
+        "offsets a/d in {0, U(-1,1), U(-10,10), U(-1e3,1e3), U(-1e6,1e6)}, Bessel band-limiting at 0.75..1.5 R, white Gaussian noise sigma in 0.5%..5% of d, and a metamorphic twin "
         "alpha*y+beta (alpha in 1e-3..1e3) under the same numpy seed; oracle: the statement's validity predicate and the equivariance relation; "
         "non-trivial: d outside [0.1, 2] V or |a| > d")
 ASSUMPTIONS = [
@@ -23,8 +23,9 @@ ASSUMPTIONS = [
 def s_case(draw):
     return {"pattern": draw(st.sampled_from(["random", "random", "prbs7", "prbs9"])), "nslots": draw(st.sampled_from([64, 96, 128, 200, 256, 512])),
             "sps": draw(st.sampled_from([8, 16, 32])), "logd": draw(st.one_of(st.floats(-3, 2), st.sampled_from([-3.0, -2.0, -1.0, 0.0, 0.5, 1.0, 1.5, 2.0]))),
-            "off": draw(st.one_of(st.just(0.0), st.floats(-1, 1), st.floats(-10, 10))), "bw": draw(st.floats(0.75, 1.5)), "sig": draw(st.floats(0.005, 0.05)),
-            "loga": draw(st.floats(-3, 3)), "beta": draw(st.floats(-10, 10)), "seed": draw(st.integers(0, 2 ** 31 - 1)), "p1": draw(st.floats(0.35, 0.65)),
+            "off": draw(st.one_of(st.just(0.0), st.floats(-1, 1), st.floats(-10, 10), st.floats(-10, 10), st.floats(-1e3, 1e3), st.floats(-1e6, 1e6))), "bw": draw(st.floats(0.75, 1.5)), "sig": draw(st.floats(0.005, 0.05)),
+            "loga": draw(st.floats(-3, 3)), "beta": draw(st.one_of(st.floats(-10, 10), st.floats(-10, 10), st.floats(-1e3, 1e3), st.floats(-1e6, 1e6))),
+            "prior": draw(st.sampled_from([None, None, 32, 64])), "seed": draw(st.integers(0, 2 ** 31 - 1)), "p1": draw(st.floats(0.35, 0.65)),
             "form": draw(st.sampled_from(["es", "es_noise", "array"]))}
 
 
@@ -74,6 +75,18 @@ def e_case(c):
         g.add_signal("x", arg)
     else:
         g.add("x", arg)
+    prior = "-"
+    if c.get("prior") and c["prior"] != sps:
+        # an earlier analysis in the same process: a record with the SAME number of samples as the resampled one below (nslots*128) but
+        # another slot width, analysed without resampling
+        sp0 = c["prior"]
+        gv(sps=sp0, R=1e9)
+        rs0 = np.random.RandomState(c["seed"] ^ 0xABCD)
+        w0 = 0.3 + 1.7 * np.kron(rs0.randint(0, 2, c["nslots"] * 128 // sp0), np.ones(sp0)) + rs0.normal(0, 0.03, c["nslots"] * 128)
+        np.random.seed(1)
+        lib(D.GET_EYE, w0)
+        gv(sps=sps, R=1e9)
+        prior = f"prior-record-same-size-sps{sp0}"
     e = get_eye(arg, c["seed"])
     g.verify()
     g.release()
@@ -113,7 +126,8 @@ def e_case(c):
     check(abs(int(e2.i) - int(i)) <= 1, "timing-not-invariant", f"i: {e2.i} vs {i}")
     nt = not (0.1 <= d <= 2) or abs(a) > d
     return {"nontrivial": bool(nt), "classes": [c["pattern"], f"sps{sps}", "d<0.1" if d < 0.1 else "d<=2" if d <= 2 else "d<=10" if d <= 10 else "d>10",
-                                                 "offset>d" if abs(a) > d else "offset<=d", c["form"]]}
+                                                 "offset>1000d" if abs(a) > 1000 * d else "offset>d" if abs(a) > d else "offset<=d", c["form"], prior,
+                                                 "beta>1000d" if abs(c["beta"]) > 1000 else "beta<=1000d"]}
 
 
 def classify(part, case, v):
